@@ -116,6 +116,10 @@ func (tw *tokenWorld) obtain(ch *kernel.Chooser) string {
 		tw.o.Probe("authorization-names-a-scope-twice")
 	}
 	user := ch.Pick("alice", "bob")
+	if ch.Bool(1, 8) {
+		user = "dave" // a subject with characters that URL escaping rewrites
+		tw.o.Probe("subject-with-characters-that-escaping-rewrites")
+	}
 	if tw.prop == "C08" && ch.Bool(1, 8) {
 		user = "carol" // subject with a colon
 		tw.o.Probe("subject-with-colon")
@@ -226,8 +230,14 @@ func (tw *tokenWorld) pickPresentation(ch *kernel.Chooser, target string) presen
 		p.label = "assertion-expired"
 		return p
 	case x == 16:
-		p := mkAssertion(w, target, target, target, "", []string{"https://other.sim"}, now, now.Add(time.Hour))
+		// made out to somebody else: an unrelated server, or one whose name merely begins like this issuer's (a
+		// look-alike host, another port, a path below it, the issuer plus a slash)
+		aud := ch.Pick("https://other.sim", w.Issuer+".evil.example", w.Issuer+":8443", w.Issuer+"/oauth/token", w.Issuer+"/", strings.TrimSuffix(w.Issuer, "m"))
+		p := mkAssertion(w, target, target, target, "", []string{aud}, now, now.Add(time.Hour))
 		p.label = "assertion-wrong-aud"
+		if aud != "https://other.sim" {
+			tw.o.Probe("assertion-for-a-look-alike-audience")
+		}
 		return p
 	case x == 17:
 		p := mkAssertion(w, target, "someone-else", target, "", []string{w.Issuer}, now, now.Add(time.Hour))
